@@ -127,13 +127,144 @@ let run_stem_case c =
         (show_stem (last_to_stem k checkpoint))
   | _ -> failwith ("bad stem case " ^ c)
 
+(* ---- contract-visible layer (coq/Trie/InstanceState.v) ---- *)
+let rec bits_of_pos = function XH -> [1] | XO p -> 0 :: bits_of_pos p | XI p -> 1 :: bits_of_pos p
+let hex_of_n = function
+  | N0 -> "0"
+  | Npos p ->
+      let rec go bits acc = match bits with
+        | [] -> acc
+        | _ ->
+            let rec take k l = if k = 0 then ([], l) else (match l with [] -> ([], []) | x :: r -> let (a, b) = take (k - 1) r in (x :: a, b)) in
+            let (nib, rest) = take 4 bits in
+            let v = List.fold_right (fun b acc -> 2 * acc + b) nib 0 in
+            go rest (Printf.sprintf "%x" v ^ acc) in
+      go (bits_of_pos p) ""
+let id_none = "ffffffffffffffff"
+let id_err = "bfffffffffffffff"
+
+type level = { mutable eids : (int * n) list; mutable iids : (int * n) list; mutable exhausted : int list;
+               mutable ne : int; mutable ni : int }
+let new_level () = { eids = []; iids = []; exhausted = []; ne = 0; ni = 0 }
+let push_e lv raw id = lv.eids <- (lv.ne, id) :: lv.eids; ignore raw; lv.ne <- lv.ne + 1
+let push_i lv raw id = lv.iids <- (lv.ni, id) :: lv.iids; ignore raw; lv.ni <- lv.ni + 1
+let pick l i = List.assoc_opt i l
+let int_of_id = function None -> 0 | Some id -> int_of_n id
+let forged real salt =
+  let base = int_of_id real in
+  match salt mod 3 with
+  | 0 -> base lxor (1 lsl 32)
+  | 1 -> (base land (lnot 0xffffffff)) lor 0x00fffff0
+  | _ -> base + (7 lsl 32)
+
+let run_inst ops =
+  let st = ref (Some c_init) in
+  let levels = ref [new_level ()] in
+  let outs = ref [] in
+  let emit s = outs := s :: !outs in
+  let step o = match !st with
+    | None -> None
+    | Some s -> let (s', x) = c_step o s in st := s'; Some x in
+  let show = function
+    | XId id -> hex_of_n id | XNum n -> string_of_int (int_of_n n) | XBytes v -> hex v
+    | XInvalid -> "invalid" | XMark -> "" in
+  let is_valid_id h = h <> id_none && h <> id_err in
+  (try List.iter (fun s ->
+    if !st = None then raise Exit;
+    let lv = List.hd !levels in
+    let c = s.[0] in
+    let a = String.sub s 1 (String.length s - 1) in
+    let args = Array.of_list (String.split_on_char ',' a) in
+    let do_next id idkey =
+      match step (CNext id) with
+      | Some (XId e) ->
+          let h = hex_of_n e in
+          if is_valid_id h then push_e lv 0 e;
+          if h = id_none then lv.exhausted <- idkey :: lv.exhausted;
+          emit h
+      | _ -> emit "?!" in
+    let do_read id size_only =
+      match step (if size_only then CSize id else CRead id) with
+      | Some x -> emit (show x) | None -> emit "?!" in
+    match c with
+    | 'l' | 'c' ->
+        (match step (if c = 'l' then CLookup (unhex a) else CCreate (unhex a)) with
+         | Some (XId id) -> let h = hex_of_n id in if h <> id_none then push_e lv 0 id; emit h
+         | _ -> emit "?!")
+    | 'd' -> (match step (CDelete (unhex a)) with Some x -> emit (show x) | None -> emit "?!")
+    | 'p' -> (match step (CDeletePrefix (unhex a)) with Some x -> emit (show x) | None -> emit "?!")
+    | 't' ->
+        (match step (CIter (unhex a)) with
+         | Some (XId id) -> let h = hex_of_n id in if is_valid_id h then push_i lv 0 id; emit h
+         | _ -> emit "?!")
+    | 'n' ->
+        let i = int_of_string a in
+        (match pick lv.iids i with None -> emit "skip" | Some id -> do_next id (int_of_n id))
+    | 'G' ->
+        let i = int_of_string a in
+        let f = forged (pick lv.iids i) i in do_next (n_of_int f) f
+    | 'x' ->
+        (match pick lv.iids (int_of_string a) with
+         | None -> emit "skip"
+         | Some id -> (match step (CIterDelete id) with Some x -> emit (show x) | None -> emit "?!"))
+    | 'k' ->
+        (match pick lv.iids (int_of_string a) with
+         | None -> emit "skip"
+         | Some id ->
+             (match step (CIterKey id) with
+              | Some XInvalid -> emit "invalid"
+              | Some x -> if List.mem (int_of_n id) lv.exhausted then emit "?" else emit (show x)
+              | None -> emit "?!"))
+    | 'r' -> (match pick lv.eids (int_of_string a) with None -> emit "skip" | Some id -> do_read id false)
+    | 'z' -> (match pick lv.eids (int_of_string a) with None -> emit "skip" | Some id -> do_read id true)
+    | 'g' -> let h = int_of_string a in do_read (n_of_int (forged (pick lv.eids h) h)) false
+    | 'w' ->
+        (match pick lv.eids (int_of_string args.(0)) with
+         | None -> emit "skip"
+         | Some id ->
+             (match step (CWrite (id, n_of_int (int_of_string args.(1)), unhex args.(2))) with
+              | Some x -> emit (show x) | None -> emit "?!"))
+    | 's' ->
+        (match pick lv.eids (int_of_string args.(0)) with
+         | None -> emit "skip"
+         | Some id ->
+             (match step (CResize (id, n_of_int (int_of_string args.(1)))) with
+              | Some x -> emit (show x) | None -> emit "?!"))
+    | '[' -> ignore (step CInterrupt); levels := new_level () :: !levels; emit "["
+    | ']' ->
+        ignore (step (CEnd (a = "1"))); emit "]";
+        (match !levels with _ :: (_ :: _ as rest) -> levels := rest | _ -> ())
+    | _ -> failwith ("bad J op " ^ s)) ops
+   with Exit -> ());
+  List.rev !outs
+
+(* ---- arena model (coq/Trie/Arena.v) ---- *)
+let rec take n l = if n = 0 then [] else match l with [] -> [] | x :: r -> x :: take (n - 1) r
+let run_arena ops =
+  let st = ref as_init in
+  List.map (fun o ->
+    let a0 = !st.as_arena in
+    let ((cpn, cpv), cpe) = cur_checkpoint a0 in
+    let (s', x) = as_step o !st in st := s';
+    let a1 = s'.as_arena in
+    (* copy-on-write: an operation other than a rollback leaves everything below the checkpoint of the
+       generation it ran in untouched *)
+    let cow_ok = match o with
+      | ONormalize _ -> true
+      | _ ->
+          let (n, v, e) = (int_of_nat cpn, int_of_nat cpv, int_of_nat cpe) in
+          take n a1.a_nodes = take n a0.a_nodes && take v a1.a_values = take v a0.a_values
+          && take e a1.a_entries = take e a0.a_entries in
+    show_out x ^ "#" ^ String.concat "," (List.map (fun n -> string_of_int (int_of_nat n)) (sizes a1))
+    ^ (if cow_ok then "" else "!COW")) ops
+
 let () =
   let use_spec = Array.length Sys.argv > 1 && Sys.argv.(1) = "spec" in
   (try
     while true do
       let line = input_line stdin in
       let n = String.length line in
-      if n >= 2 && (line.[0] = 'H' || line.[0] = 'P' || line.[0] = 'N') && line.[1] = ' ' then begin
+      if n >= 2 && (line.[0] = 'H' || line.[0] = 'P' || line.[0] = 'N' || line.[0] = 'J' || line.[0] = 'A') && line.[1] = ' ' then begin
         let rest = String.sub line 2 (n - 2) in
         let i = try String.index rest ' ' with Not_found -> String.length rest in
         let id = String.sub rest 0 i in
@@ -141,6 +272,8 @@ let () =
         let outs =
           if line.[0] = 'H' then run_history use_spec (List.map parse_op (split_ops body))
           else if line.[0] = 'N' then List.map run_stem_case (split_ops body)
+          else if line.[0] = 'J' then run_inst (split_ops body)
+          else if line.[0] = 'A' then run_arena (List.map parse_op (split_ops body))
           else run_prefix (split_ops body) in
         print_string ("M " ^ id ^ " " ^ String.concat ";" outs ^ "\n")
       end
